@@ -11,7 +11,7 @@ from ..ctx import Failure, Result, Viol, digest
 
 LEVEL = "fault_enumeration"
 WORKERS = {"quick": 8, "thorough": 16}
-BUDGET_S = {"quick": 70, "thorough": 800}
+BUDGET_S = {"quick": 90, "thorough": 800}
 RULE = (
     "Hypothesis draws a scenario (S1 stage+transfer into a LocalHashFileDB with state, hardlink on/off; "
     "S2 index build->md5->save of nested directories with state; S3 store->store transfer local cache -> "
@@ -430,6 +430,7 @@ def run_case(case, ctx):  # noqa: C901
 # canonical scenarios: run first in every tier (sharded over the workers) so that each scenario family
 # and the shapes the property names are enumerated even by the small quick tier
 _T = {"a": "p:A", "sub": {"b": "p:B", "c": "p:A"}, "e": "p:empty"}
+_U = {"a": "p:A", "sub": {"b": "p:B", "c": "p:C"}}
 CANON = [
     {"scenario": "S1", "tree": _T, "hardlink": False, "index": False, "form": "closed", "pre": False, "tree2": None},
     {"scenario": "S1", "tree": _T, "hardlink": True, "index": False, "form": "closed", "pre": True, "tree2": None},
@@ -443,6 +444,12 @@ CANON = [
     {"scenario": "S3", "tree": {"a": "p:A"}, "hardlink": False, "index": True, "form": "closed", "pre": True,
      "tree2": None},
     {"scenario": "S4", "tree": _T, "hardlink": False, "index": False, "form": "closed", "pre": False, "tree2": None},
+    # the same four families over a tree WITHOUT an empty file: whichever object an add batch places first,
+    # an empty leftover under its final name mismatches (the empty file's own leftover would be "correct")
+    {"scenario": "S1", "tree": _U, "hardlink": False, "index": False, "form": "closed", "pre": False, "tree2": None},
+    {"scenario": "S2", "tree": _U, "hardlink": False, "index": False, "form": "closed", "pre": False, "tree2": None},
+    {"scenario": "S3", "tree": _U, "hardlink": False, "index": True, "form": "closed", "pre": False, "tree2": None},
+    {"scenario": "S4", "tree": _U, "hardlink": False, "index": False, "form": "closed", "pre": False, "tree2": None},
     # > 1000 files in one directory (page / batch sizes of listings and status queries); crash points sampled
     {"scenario": "S1", "tree": {"a": "p:A"}, "hardlink": False, "index": False, "form": "closed", "pre": False,
      "tree2": None, "bulk": 1003},
